@@ -188,6 +188,32 @@ func checkText(text string) (key, msg string) {
 		}()
 		derr = message.VerifParseAndInsertExpression(ad, "x = "+text)
 	}()
+	if perr != nil && derr == nil {
+		// the parser rejects the text, the decoder stored something: only the documented
+		// old-ClassAd reading of ONE quoted string is allowed (backslash literal, \" = quote)
+		t := strings.TrimSpace(text)
+		ok := len(t) >= 2 && t[0] == '"' && t[len(t)-1] == '"'
+		var want []byte
+		if ok {
+			in := t[1 : len(t)-1]
+			for i := 0; i < len(in); i++ {
+				if in[i] == '\\' && i+1 < len(in) && in[i+1] == '"' {
+					want = append(want, '"')
+					i++
+					continue
+				}
+				if in[i] == '"' {
+					ok = false
+					break
+				}
+				want = append(want, in[i])
+			}
+		}
+		got := valueLit(ad.EvaluateAttr("x"))
+		if !ok || got == nil || got.Kind != "str" || got.S != string(want) {
+			return "decoder-accepts-unparsable", fmt.Sprintf("value text %q is not a ClassAd expression (nor one old-style quoted string) but the decoder stored %s", text, got)
+		}
+	}
 	if perr == nil {
 		if derr != nil {
 			return "decoder-rejects", fmt.Sprintf("value text %q parses as %s but the decoder rejects it: %v", text, e.String(), derr)
@@ -970,6 +996,10 @@ func gen(c *core.Ctx) error {
 		if err := wireCase(c, w); err != nil {
 			return err
 		}
+	}
+	// a type name as long as isTypeName allows
+	if err := wireCase(c, wire{Kind: "wire", Attrs: []wattr{{"Name", `"x"`}, {"Cpus", "4"}}, My: strings.Repeat("T", 128), Tg: strings.Repeat("j", 100)}); err != nil {
+		return err
 	}
 	// raw texts that are literals in every spelling, padded
 	var rawAttrs []wattr
